@@ -129,6 +129,9 @@ def make_cif(cfg, plan, tab, rng):
         if kinds & {"Bani"}:
             cols += ["_atom_site_aniso_B_%s" % s for s in ("11", "22", "33", "23", "13", "12")]
         L += ["loop_"] + cols
+        # the aniso loop need not list the atoms in the order of the site loop (rows are matched by label)
+        ani = list(ani)
+        rng.shuffle(ani)
         for a in ani:
             row = [a["label"]]
             if kinds & {"Uani"}:
